@@ -104,6 +104,7 @@ var Mutants = map[string][]Mutant{
 		{"closed flag also set by MoveTo", "path_stroke.go", `\t\tcase MoveToCmd:\n\t\t\tend = Point\{p\.d\[i\+1\], p\.d\[i\+2\]\}\n\t\tcase LineToCmd:\n\t\t\tend = Point\{p\.d\[i\+1\], p\.d\[i\+2\]\}\n\t\t\tn := end`, "\t\tcase MoveToCmd:\n\t\t\tend = Point{p.d[i+1], p.d[i+2]}\n\t\t\tclosed = false\n\t\tcase LineToCmd:\n\t\t\tend = Point{p.d[i+1], p.d[i+2]}\n\t\t\tn := end", "E11.cap-join"},
 	},
 	"C05": {
+		{"Join welds points that share one coordinate", "path.go", `p\.d\[len\(p\.d\)-1\] == CloseCmd \|\| !Equal\(p\.d\[len\(p\.d\)-3\], q\.d\[1\]\) \|\| !Equal\(p\.d\[len\(p\.d\)-2\], q\.d\[2\]\)`, "p.d[len(p.d)-1] == CloseCmd || !Equal(p.d[len(p.d)-3], q.d[1]) && !Equal(p.d[len(p.d)-2], q.d[2])", "E11.join-coincidence"},
 		{"SplitAt drops a leading cut within Epsilon of zero", "path.go", `(sort\.Float64s\(ts\)\n\t)if ts\[0\] == 0\.0 \{`, "${1}if Equal(ts[0], 0.0) {", "E11.leading-cut-exact"},
 		{"dash pattern reduced to a period that need not divide it", "path.go", `(?s)REPEAT:\n\tfor len\(d\)%2 == 0 \{\n\t\tmid := len\(d\) / 2\n\t\tfor i := 0; i < mid; i\+\+ \{\n\t\t\tif !Equal\(d\[i\], d\[mid\+i\]\) \{\n\t\t\t\tbreak REPEAT\n\t\t\t\}\n\t\t\}\n\t\td = d\[:mid\]\n\t\}\n`, "\tfor n := 1; n <= len(d)/2; n++ {\n\t\ti := n\n\t\tfor i < len(d) && Equal(d[i], d[i-n]) {\n\t\t\ti++\n\t\t}\n\t\tif i == len(d) {\n\t\t\td = d[:n]\n\t\t\tbreak\n\t\t}\n\t}\n", "E11.dash-reduction-divides"},
 		{"short sub-paths skip the cut loop by the element length alone", "path.go", `(\t\tlength := ps\.Length\(\)\n)(\t\tfor pos\+d\[i\]\+Epsilon < length \{)`, "${1}\t\tif length < d[i0] {\n\t\t\tif i0%2 == 0 {\n\t\t\t\tq = q.Append(ps)\n\t\t\t}\n\t\t\tcontinue\n\t\t}\n${2}", "E11.dash-cover"},
@@ -122,6 +123,7 @@ var Mutants = map[string][]Mutant{
 		{"arc cut relative to the arc start", "path.go", `ellipseSplit\(rx, ry, phi, cx, cy, startTheta, theta2, theta\)`, `ellipseSplit(rx, ry, phi, cx, cy, theta1, theta2, theta)`, "E11.cut-carried"},
 	},
 	"C06": {
+		{"cubic direction uses the start chords at the end", "path_util.go", `(\} else if Equal\(t, 1\.0\) \{\n\t\t\tif deriv = )p3\.Sub\(p1\)`, "${1}p2.Sub(p0)", "E9.direction-fallback-symmetric"},
 		{"pending hit replaced when the next hit lies elsewhere", "path.go", `\n\t\t\} else if prev == nil \{`, "\n\t\t} else if prev == nil || !prev.Point.Equals(z.Point) {", "E9.pending-not-overwritten"},
 		{"second derivative of the cubic taken at the line parameter", "path_intersection_util.go", `(if endpoint \{\n[^\n]*\n\t\t\t\t\tderiv2 := cubicBezierDeriv2\(p0, p1, p2, p3, )root\)`, "${1}s)", "E9.curve-parameter-domain"},
 		{"x-monotone arc pieces inherit the large flag", "path_util.go", `(p\.ArcTo\(rx, ry, phi\*180\.0/math\.Pi, )false(, sweep, pos\.X, pos\.Y\))`, "${1}large${2}", "E11.piece-flag-not-whole-arcs"},
